@@ -794,6 +794,16 @@ class Engine:
             bm = self.builtins.get('cls:%s.%s' % (o.cls, attr))
             if bm is not None:
                 return Fn(lambda eng, s, args, kw, n, _v=v, _m=bm: _m.call(eng, s, [_v] + list(args), kw, n), attr)
+            if self.find_class(o.cls) is not None and attr.startswith('_') and not attr.startswith('__') and not self.pure:
+                # an attribute the contract's object kind does not know (state added by an edit, e.g. a cache): nothing is
+                # known about it, so it is an unconstrained "None or integer" value in the entry state
+                self.assumptions_used.add('attribute %s.%s is not part of the contract: treated as an unconstrained int-or-None value' % (o.cls, attr))
+                nv = Opt(z3.Bool(uid(attr + '.isnone')), z3.Int(uid(attr)))
+                o.fields[attr] = nv
+                for fr_ in self.frames:
+                    if fr_.old is not None and v.oid in fr_.old[1] and attr not in fr_.old[1][v.oid].fields:
+                        fr_.old[1][v.oid].fields[attr] = nv
+                return nv
             raise Unsupported('attribute %s of %s (line %s)' % (attr, o.cls, getattr(node, 'lineno', '?')))
         if isinstance(v, Rec):
             bm = self.builtins.get('cls:%s.%s' % (v.cls, attr))
@@ -1036,6 +1046,37 @@ class Engine:
                 if g.ifs:
                     raise Unsupported('filtered comprehension over a symbolic sequence')
                 s0 = s
+                if not self.pure:
+                    # an element expression that can raise: some element raises -> the comprehension raises
+                    qi = z3.Int(uid('ci'))
+                    probe = s.copy()
+                    probe.pc = []
+                    self.bind_target(g.target, it.get(qi), probe, node)
+                    self.sinks.append([])
+                    try:
+                        self.ev(node.elt, probe)
+                    finally:
+                        excs = self.sinks.pop()
+                    by_cls = {}
+                    for se, e, ln in excs:
+                        by_cls.setdefault(e.cls, []).append(b_and(*se.pc) if se.pc else True)
+                    allc = []
+                    for cls_, conds in by_cls.items():
+                        cnd = simp(b_or(*conds))
+                        if cnd is False:
+                            continue
+                        allc.append(cnd)
+                        kk = z3.Int(uid('ck'))
+                        ck = z3.substitute(to_bool_term(cnd), (qi, kk)) if is_z3(cnd) else z3.BoolVal(True)
+                        sx = s.copy().assume(z3.And(kk >= 0, kk < to_int(it.length), ck))
+                        if not sx.dead:
+                            self.throw(sx, cls_, node)
+                    if allc:
+                        tot = simp(b_or(*allc))
+                        if tot is True:
+                            s.assume(num_cmp('==', it.length, 0))
+                        else:
+                            s.assume(z3.ForAll([qi], z3.Implies(z3.And(qi >= 0, qi < to_int(it.length)), z3.Not(to_bool_term(tot)))))
 
                 def get(i, _it=it, _s=s0):
                     return self.pure_apply_target(g.target, _it.get(i), node.elt, _s, node)
@@ -1147,9 +1188,10 @@ class Engine:
                 for a, v in zip(argnodes, vals[:len(argnodes)]):
                     if isinstance(a, ast.Starred):
                         vv = as_view(v)
-                        if not is_conc_int(vv.length):
+                        n_ = vv.length if is_conc_int(vv.length) else self.entailed_int(s2, vv.length)
+                        if n_ is None:
                             raise Unsupported('*args of symbolic length')
-                        args += [vv.get(i) for i in range(vv.length)]
+                        args += [vv.get(i) for i in range(n_)]
                     else:
                         args.append(v)
                 kw = {k: v for (k, _), v in zip(kwnodes, vals[len(argnodes):])}
@@ -1182,6 +1224,18 @@ class Engine:
                 for s3 in self.assign(node.func.value, nv, s2, node):
                     out.append((s3, rv))
         return out
+
+    def entailed_int(self, st, term, lo=0, hi=8):
+        """The value k in lo..hi that the path condition forces `term` to have, or None."""
+        for k in range(lo, hi + 1):
+            sol = z3.Solver()
+            sol.set('timeout', 2000)
+            for a in st.pc:
+                sol.add(a)
+            sol.add(to_int(term) != k)
+            if sol.check() == z3.unsat:
+                return k
+        return None
 
     def ev_callee(self, fnode, st):
         """Evaluate the callee expression.  Handles `X[i].method` on views of records (write-back)."""
@@ -1359,6 +1413,13 @@ class Engine:
         if c is not None and (c.inline or c.inline_at_calls) or key in getattr(self.reg, 'inline_keys', ()):
             return self.inline_call(fn, args, kw, st, node, merge=bool(self.pure))
         if fn.closure is not None:
+            return self.inline_call(fn, args, kw, st, node, merge=bool(self.pure))
+        # a repository function without a contract: executed from its real body when it is loop-free (small helpers,
+        # including helpers extracted by a refactoring); anything larger must be given a contract
+        if not any(isinstance(n, (ast.While, ast.For, ast.AsyncFor)) for n in ast.walk(fn.node)) \
+                and sum(1 for n in ast.walk(fn.node) if isinstance(n, ast.stmt)) <= 40:
+            self.auto_inlined = getattr(self, 'auto_inlined', set())
+            self.auto_inlined.add('%s:%s' % (fn.mod.relpath, fn.qual))
             return self.inline_call(fn, args, kw, st, node, merge=bool(self.pure))
         raise Unsupported('call of %s:%s which has no contract and is not marked inline (line %s)'
                           % (fn.mod.relpath, fn.qual, getattr(node, 'lineno', '?')))
@@ -1567,6 +1628,8 @@ class Engine:
         cur = o.fields.get(parts[-1])
         k = (kinds or {}).get(path)
         if k is None:
+            if parts[-1] not in o.fields:
+                raise ContractError('modifies %s: the field does not exist yet and the contract gives no kind for it' % path)
             k = self.kind_in_state(cur, st)
         facts = []
         nv = fresh(k, uid(parts[-1]), (), facts)
